@@ -2,7 +2,7 @@
 # tools/process_round.sh <PROP> <suffix>  — confirm /tmp/seed_out/<PROP><suffix>/{1,2,3} and run <PROP>'s quick check against each
 P="$1"; SUF="$2"
 git -C /tmp/wt/confirm checkout -q --detach main 2>/dev/null
-for k in 1 2 3; do
+for k in 1 2 3 4; do
   src=/tmp/seed_out/${P}${SUF}/$k
   [ -f "$src/patch.diff" ] || continue
   sid=${P}${SUF}-$k
